@@ -188,7 +188,9 @@ def stmts_in_order(fn_node):
 
 
 def position(node):
-    return (getattr(node, 'lineno', 0), getattr(node, 'col_offset', 0))
+    """Program-order position: the source-order number given by core._number (robust to inlined helper bodies), else (line, column)."""
+    p = getattr(node, '_pos', None)
+    return p if p is not None else (getattr(node, 'lineno', 0), getattr(node, 'col_offset', 0))
 
 
 def exclusive(a, b, pm, stop=None):
@@ -238,6 +240,8 @@ def reaching_definitions(fn_node, name, use, pm):
     definition that precedes it, and -- when it lies in the innermost loop shared with a later definition -- the
     loop-carried ones as well."""
     out = []
+    if isinstance(fn_node, (ast.FunctionDef, ast.AsyncFunctionDef)) and is_param(fn_node, name):
+        out.append((fn_node, None, 'param'))         # the value passed by the caller
     for st, val, how in definitions(fn_node, name):
         if exclusive(st, use, pm, stop=fn_node):
             continue
@@ -250,7 +254,7 @@ def reaching_definitions(fn_node, name, use, pm):
             out.append((st, val, how))
     if len(out) > 1:
         before = [d for d in out if position(d[0]) < position(use) and d[2] in ('assign', 'for', 'unpack')
-                  and isinstance(d[0], ast.stmt)]
+                  and isinstance(d[0], ast.stmt) and d[0] is not fn_node]
         if before:
             dstar = max(before, key=lambda d: position(d[0]))
             if dominating_block_index(dstar[0], use, pm) is not None and not (
